@@ -370,6 +370,8 @@ def run_world(scn):
         elif k == "randomize":
             target = obj_at(root, op["target"])
             before = read_values(root, spaths)
+            import treelib
+            tree_before = treelib.shape(root.get_model())
             del CB_LOG[:]
             del S.EV[:]
             del PRESETS[:]
@@ -420,5 +422,6 @@ def run_world(scn):
                    "implFinal": after if outcome == "ok" else None}
             out.append({"op": op, "before": before, "after": after, "outcome": outcome, "exc": exc, "obs": obs, "uncon": uncon,
                         "used": used, "callbacks": cbs, "post_snaps": snaps, "blocks": read_blocks(root, scn), "req": req,
-                        "names": [".".join(p) for p, _ in spaths]})
+                        "names": [".".join(p) for p, _ in spaths],
+                        "tree": [tree_before, treelib.shape(root.get_model())]})
     return out
